@@ -468,7 +468,9 @@ def build_streams(rng, tier):
                 l = f"{cmd} {'x'.join(map(str, sh)) or '-'} {show_data(ent)} layout={L}"; kinds[l] = f"layout={L} guard"; lay.append(l)
 
     # ---- weight table
-    pw = [f"pweights {n} {ip}" for n in range(0, 7 if thorough else 6) for ip in (0, 1, 2, 3, -1, 4, 7)] + ["pweights -1 0", "pweights -3 2"]
+    pw = [f"pweights {n} {ip}" for n in range(0, 7 if thorough else 6) for ip in ((2, 0, 1, 3, -1, 4, 7, 0) if n % 2 == 0 else (0, 3, 0, 1, 2, -1, 4, 7, 0))] + ["pweights -1 0", "pweights -3 2"]
+    # (a non-default identity position is asked BEFORE the default one for every other n, and the default one again at the
+    #  end: a table remembered across calls must not leak from one convention into the other; this stream runs first)
 
     # ---- lookups in vectors of right and wrong length
     wl = []
@@ -553,12 +555,12 @@ def build_streams(rng, tier):
             return None if (o == "!ValueError") == (not valid_matrix_shape(impl.parse_shape(l.split(" ")[1]))) else f"average_pauli_weight guard: {o}"
         return orc(l, o)
     return [
+        Stream("weight-table", pw, h, oracle_pweights, tag=lambda l, o: "ip=" + l.split(" ")[2]),
         Stream("corpus", corpus_lines(PID), h, orc, shrink=shrink_line),
         Stream("dyadic-decomposition-n<=4", dec, h, oracle_decomp, nontrivial=nontrivial, shrink=shrink_line, tag=tagk),
         Stream("every-string-as-lookup-key-n<=3", look, h, oracle_dlook, nontrivial=nontrivial, shrink=shrink_line, tag=tagk),
         Stream("diagonal-variant", dg, h, orc, nontrivial=nontrivial, shrink=shrink_line, tag=tagk),
         Stream("same-matrix-different-memory-layout", lay, h, orc_guard, nontrivial=nontrivial, shrink=shrink_line, tag=tagk),
-        Stream("weight-table", pw, h, oracle_pweights, tag=lambda l, o: "ip=" + l.split(" ")[2]),
         Stream("lookup-right-and-wrong-length", wl, h, oracle_weight,
                tag=lambda l, o: "weight " + ("valueError" if o == "!ValueError" else "error " + o if o.startswith("!") else "answered")),
         Stream("guards", gd, h, orc_guard, tag=lambda l, o: "guard " + ("valueError" if o == "!ValueError" else "error " + o if o.startswith("!") else "answered")),
